@@ -12,6 +12,19 @@ from .runner import M
 IMM = "src/allmydata/storage/immutable.py"
 MUT = "src/allmydata/storage/mutable.py"
 SRV = "src/allmydata/storage/server.py"
+LEASE = "src/allmydata/storage/lease.py"
+LSCH = "src/allmydata/storage/lease_schema.py"
+
+# C29.9 (seeded change C29-F): the wrapper's renew override, and the type test under which the v2 serializer hashes
+_H_RENEW = ("    def renew(self, new_expire_time):\n"
+            "        # Preserve the HashedLeaseInfo wrapper around the renewed LeaseInfo.\n"
+            "        return attr.assoc(\n"
+            "            self,\n"
+            "            _lease_info=super(HashedLeaseInfo, self).renew(new_expire_time),\n"
+            "        )\n"
+            "\n")
+_SER_HASH = ("        if isinstance(lease, LeaseInfo):\n"
+             "            # v2 of the immutable schema stores lease secrets hashed.  If\n")
 
 _ADD = ("            new_lease_count = struct.pack(self._lease_count_format, num_leases + 1)\n"
         "            self._write_lease_record(f, num_leases, lease_info)\n"
@@ -362,6 +375,30 @@ MUTANTS = [
       "            self._length = filesize - 0xc - (num_leases * self.LEASE_SIZE)\n",
       "            self._lease_offset = 0xc + unused\n"
       "            self._length = unused\n", None),
+    # ---- C29.9 a renewal keeps the lease it rewrites (no second hashing of stored secrets)
+    M("renew-override-removed-as-redundant", LEASE, _H_RENEW, "", "C29.9"),
+    M("renew-override-returns-wrapped-lease", LEASE, _H_RENEW,
+      "    def renew(self, new_expire_time):\n        return super(HashedLeaseInfo, self).renew(new_expire_time)\n\n", "C29.9"),
+    M("renew-override-copies-the-wrapped-lease", LEASE, _H_RENEW,
+      "    def renew(self, new_expire_time):\n"
+      "        return attr.assoc(self._lease_info, _expiration_time=new_expire_time)\n\n", "C29.9"),
+    M("serializer-hashes-whatever-has-secrets", LSCH, _SER_HASH,
+      _SER_HASH.replace("isinstance(lease, LeaseInfo)", "isinstance(lease, (LeaseInfo, HashedLeaseInfo))"), "C29.9"),
+    M("mutable-renewal-rebuilds-the-record", MUT, "                        lease = lease.renew(new_expire_time)\n",
+      "                        lease = LeaseInfo(lease.owner_num, renew_secret, lease.cancel_secret,\n"
+      "                                          new_expire_time, lease.nodeid)\n", "C29.9"),
+    M("benign-renew-wraps-anew", LEASE, _H_RENEW,
+      "    def renew(self, new_expire_time):\n        renewed = self._lease_info.renew(new_expire_time)\n"
+      "        return HashedLeaseInfo(renewed, self._hash)\n\n", None),
+    M("benign-serializer-tests-for-the-wrapper", LSCH, _SER_HASH,
+      _SER_HASH.replace("isinstance(lease, LeaseInfo)", "not isinstance(lease, HashedLeaseInfo)"), None),
+    M("benign-renewed-lease-in-a-temporary", MUT, "                        lease = lease.renew(new_expire_time)\n"
+      "                        self._write_lease_record(f, leasenum, lease)\n",
+      "                        renewed = lease.renew(new_expire_time)\n"
+      "                        self._write_lease_record(f, leasenum, renewed)\n", None),
     # ---- vanished anchor
+    M("vanish-hashed-serializer", LSCH, "class HashedLeaseSerializer:", "class HashedLeaseSerializerV2:", "ANALYSIS-ERROR",
+      edits=[(LSCH, "v2_immutable = HashedLeaseSerializer(", "v2_immutable = HashedLeaseSerializerV2("),
+             (LSCH, "v2_mutable = HashedLeaseSerializer(", "v2_mutable = HashedLeaseSerializerV2(")]),
     M("vanish-clean-incomplete", SRV, "    def _clean_incomplete(self):", "    def _clean_partial(self):", "ANALYSIS-ERROR"),
 ]
